@@ -3,3 +3,32 @@ check("C23", "exploration",
   "Seeded search over interleaved client operation sequences with clean and cache-lost restarts on the real BadgerStore cache API, compared step by step with a reference model derived from the property text; a clean batch is evidence, not proof.",
   "Badger commit atomicity (A1); scheduling at Store-call granularity (A3); cache TTL never fires inside a run.",
   "DESIGN.md section 8 C23")
+_r3note = "Badger commit atomicity (A1); scheduling at Store-call granularity (A3)."
+_r1note = "A1 crash points are Store-call boundaries; A2 curve/hash libraries correct; A4 replaced loop scaffolding (transport, timers) is not itself the mechanism; A5 7-9 real nodes; sampled schedules, not exhaustive."
+check("C03", "exploration", "deterministic simulation: seeded interleavings of lock/write/finalize clients on the real store vs. a holder model",
+  "Seeded search over call-granularity interleavings of ordinary and fork lock requests, body writes, finalizations and restarts on the real BadgerStore, with the whole holder/body/finalization model re-read after each operation.",
+  _r3note, "DESIGN.md section 8 C03")
+check("C04", "exploration", "deterministic simulation: seeded reservation/validation/finalization sequences on the real store vs. a first-binder model",
+  "Seeded search over interleaved key reservations, real Validate calls and finalizations with overlapping one-time keys and restarts; failed finalizations compared by full dump.",
+  _r3note, "DESIGN.md section 8 C04")
+check("C15", "exploration", "deterministic simulation: seeded finalization histories with failing members, full before/after database dumps vs. an effect model",
+  "Seeded histories of mixed batches finalized through the real WriteSnapshot incl. members that cannot finalize and re-included transactions; every write judged by a full key/value dump.",
+  _r3note, "DESIGN.md section 8 C15")
+check("C26", "exploration", "deterministic simulation: seeded resubmission histories of round work with restarts vs. a once-per-snapshot credit model",
+  "Seeded monotone-prefix submission histories (repeats, stale rounds, day changes, restarts) through the real WriteRoundWork compared with a credit model after every step.",
+  _r3note, "DESIGN.md section 8 C26")
+check("C27", "exploration", "deterministic simulation: seeded membership transition sequences through the real finalization path vs. a life-cycle automaton",
+  "Seeded valid and invalid pledge/accept/cancel/remove attempts finalized through the real WriteSnapshot with restarts; accepted implies model-allowed, history equals model, rejected writes change nothing.",
+  _r3note + " Membership snapshots arrive in strictly increasing timestamp order (C28).", "DESIGN.md section 8 C27")
+check("C35", "exploration", "deterministic simulation: seeded write/list/look-up/restart sequences on the real topology index vs. an ordered-list model",
+  "Seeded finalized writes, cursor listings (incl. the 500 limit), look-ups and restarts on the real store compared with an ordered list.",
+  _r3note, "DESIGN.md section 8 C35")
+check("C22", "fault_enumeration", "deterministic cluster simulation with crash injection before/after arbitrary Store calls, start-up validator + ledger scan after every restart",
+  "Seeded multi-chain workloads on 7-9 real nodes with crashes cut before/after an arbitrary upcoming mutating Store call or at step boundaries (optionally losing the un-synced cache DB); every restart must succeed and pass the graph validator over all rounds and a full ledger scan; convergence afterwards. Crash points are sampled per history, not enumerated exhaustively.",
+  _r1note, "DESIGN.md section 8 C22")
+check("C20", "exploration", "deterministic cluster simulation with Byzantine reference tampering; monitor on every durable round transition",
+  "Seeded cluster runs under network faults, skew, crash/restart and a Byzantine proposer re-sending proposals with self/stale/unknown/regressing references; every StartNewRound/UpdateEmptyHeadRound judged against pre/post durable state and an independent round-hash recomputation; per-step fingerprint of durable and in-memory links.",
+  _r1note, "DESIGN.md section 8 C20")
+check("C18", "exploration", "deterministic cluster simulation: independent recomputation of every closed round on every node, cross-node agreement, restart validator",
+  "Seeded cluster runs with bursts, reordering and crash/restart; every closed round on every node is recomputed from the documented commitment and compared with the stored record, the live final round and the other nodes. The equal-timestamp tie-break is not reachable at system level.",
+  _r1note, "DESIGN.md section 8 C18")
